@@ -25,7 +25,9 @@ use tari_bulletproofs_plus::{
 };
 
 type P = RistrettoPoint;
-pub const NCALLS: usize = 12;
+static BIG: std::sync::OnceLock<RangeParameters<P>> = std::sync::OnceLock::new();
+static BULK: std::sync::OnceLock<Vec<Made>> = std::sync::OnceLock::new();
+pub const NCALLS: usize = 15;
 
 fn digest(parts: &[&[u8]]) -> String {
     let mut h = Sha3_256::new();
@@ -62,7 +64,7 @@ struct Made {
 fn make(params: RangeParameters<P>, m: usize, t: usize, seeded: bool, rng_seed: u64) -> Made {
     let n = params.bit_length();
     let n = n.min(62); // values below 2^62 so the arithmetic below cannot overflow
-    let blinds: Vec<Vec<Scalar>> = (0..m).map(|j| (0..t).map(|k| Scalar::from(1000 + 17 * j as u64 + k as u64)).collect()).collect();
+    let blinds: Vec<Vec<Scalar>> = (0..m).map(|j| (0..t).map(|k| Scalar::from(1000 + 17 * j as u64 + k as u64 + 1_000_003 * rng_seed)).collect()).collect();
     let vals: Vec<u64> = (0..m).map(|j| (5 + 3 * j as u64) % (1u64 << n.min(63))).collect();
     let cs: Vec<P> = (0..m).map(|j| params.pc_gens().commit(&Scalar::from(vals[j]), &blinds[j]).unwrap()).collect();
     let stmt = RangeStatement::init(params, cs, (0..m).map(|j| if j == 0 { Some(1) } else { None }).collect(), if seeded { Some(Scalar::from(424242u64)) } else { None }).unwrap();
@@ -149,6 +151,20 @@ pub fn call_opt(c: usize, shared: Option<&RangeParameters<P>>) -> String {
             let v1 = verify_digest(std::slice::from_ref(&a.stmt), std::slice::from_ref(&a.proof), VerifyAction::RecoverOnly);
             let v2 = verify_digest(std::slice::from_ref(&a.stmt), std::slice::from_ref(&a.proof), VerifyAction::RecoverAndVerify);
             digest(&[v1.as_bytes(), v2.as_bytes()])
+        },
+        12 | 13 => {
+            // one parameter object of capacity 32 shared by everybody, used for 8 commitments (call 12) and for 16 (call 13)
+            let big = BIG.get_or_init(|| params(2, 32, 1));
+            let a = make(big.clone(), if c == 12 { 8 } else { 16 }, 1, false, 21 + c as u64);
+            let v = verify_digest(std::slice::from_ref(&a.stmt), std::slice::from_ref(&a.proof), VerifyAction::VerifyOnly);
+            digest(&[&a.proof.to_bytes(), v.as_bytes()])
+        },
+        14 => {
+            // a large batch of distinct small proofs (thousands of distinct points are decoded by every such call)
+            let bulk = BULK.get_or_init(|| (0..1300u64).map(|i| make(params(2, 1, 1), 1, 1, false, 5000 + i)).collect::<Vec<_>>());
+            let stmts: Vec<RangeStatement<P>> = bulk.iter().map(|m| m.stmt.clone()).collect();
+            let proofs: Vec<RangeProof<P>> = bulk.iter().map(|m| RangeProof::<P>::from_bytes(&m.proof.to_bytes()).unwrap()).collect();
+            verify_digest(&stmts, &proofs, VerifyAction::VerifyOnly)
         },
         _ => {
             let a = make(shared.expect("shared parameter object").clone(), 2, 2, false, 11);
